@@ -19,6 +19,11 @@ FORCE = None
 PID = "C09"
 
 
+def _reader(rng):
+    return {"gsc": {"kind": "User", "evals": int(rng.integers(200, 700)), "metaepochs": int(rng.integers(4, 9)), "look": True}, "min_generations": 2,
+            "nlev": int(rng.choice([2, 2, 3])), "engines": {0: ["sea", "de", "shade", "ded", "seax"], 1: ["sea", "de", "shade", "cma"], 2: ["sea", "de", "cma"]}}
+
+
 def run(ctx):
     return [
         refine.refine_batch(ctx, ctx.size(120, 1500), force=FORCE, pid=PID, name="trace-refinement(Tree.step vs DemeTree.run)"),
@@ -29,6 +34,10 @@ def run(ctx):
         runs.monitor_batch(ctx, PID, ctx.size(50, 500), salt=43, name="traced-runs-monitor-C09(FarEnough over several candidates per parent)", force=_multi_far),
         # a box of its own per level: a deme is sprouted at the very point the filters accepted
         runs.level_boxes_batch(ctx, PID, ctx.size(30, 300), 51),
+        # a user-defined stop condition that reads populations, histories and centroids at EVERY consult — also
+        # between two generations of a running metaepoch: reading changes nothing
+        refine.refine_batch(ctx, ctx.size(30, 300), salt=53, force=_reader, pid=PID, name="trace-refinement(a stop condition that reads the demes between generations)"),
+        runs.monitor_batch(ctx, PID, ctx.size(50, 500), salt=55, name="traced-runs-monitor-C09(a stop condition that reads the demes between generations)", force=_reader),
     ]
 
 
